@@ -203,10 +203,14 @@ def _job(u, case, tier, canary, wd, res):
         cb += ["--malloc-may-fail", "--malloc-fail-null"]
     if u.get("leak_check", False):
         cb += ["--memory-leak-check"]
-    if u.get("unwind"):
-        cb += ["--unwind", str(u["unwind"]), "--unwinding-assertions"]
-    if u.get("unwindset"):
-        cb += ["--unwindset", ",".join(u["unwindset"]), "--unwinding-assertions"]
+    uw = u.get("unwind_" + tier, u.get("unwind"))
+    if uw:
+        cb += ["--unwind", str(uw), "--unwinding-assertions"]
+    uws = u.get("unwindset_" + tier, u.get("unwindset"))
+    if uws:
+        cb += ["--unwindset", ",".join(uws)]
+        if not uw:
+            cb += ["--unwinding-assertions"]
     if u.get("solver"):
         cb += ["--sat-solver", u["solver"]]
     cb += u["extra_cbmc"]
@@ -263,7 +267,11 @@ def _job(u, case, tier, canary, wd, res):
     for p in props:
         if p["status"] == "FAILURE" and any(v in p["desc"] for v in VACUITY_PATTERNS):
             raise Infra("a callee has no body or contract (%s at %s): the unit must stub or replace it" % (p["desc"], p["loc"]))
+    unwind_failed = [p for p in props if p["status"] == "FAILURE" and ".unwind." in p["id"]]
+    for p in props:
         if p["status"] not in ("SUCCESS", "FAILURE"):
+            if p["status"] == "UNKNOWN" and any(q["status"] == "FAILURE" for q in props):
+                continue    # cbmc reports some non-failed properties as UNKNOWN once another property (e.g. an unwinding assertion) has failed
             raise Infra("obligation %s has status %s" % (p["id"], p["status"]))
     if canary:
         c = [p for p in props if p.get("label") == "CANARY"]
@@ -271,7 +279,10 @@ def _job(u, case, tier, canary, wd, res):
             raise Infra("canary postcondition not found")
         res["status"] = "ok" if c[0]["status"] == "FAILURE" else "vacuous"
         return
-    res["status"] = "fail" if any(p["status"] == "FAILURE" for p in props) else "ok"
+    real = [p for p in props if p["status"] == "FAILURE" and ".unwind." not in p["id"]]
+    if unwind_failed and not real:
+        raise Infra("unwinding assertion failed (%s at %s): the stated bound no longer closes this loop" % (unwind_failed[0]["id"], unwind_failed[0]["loc"]))
+    res["status"] = "fail" if real else "ok"
 
 
 # --------------------------------------------------------------------------
@@ -563,6 +574,8 @@ def check_property(pid, tier, only_unit=None, keep=False, no_canary=False):
         for p in r["props"]:
             if p["status"] == "SUCCESS":
                 ev["discharged"] += 1
+                continue
+            if p["status"] != "FAILURE":
                 continue
             k = is_known(known, pid, u["unit"], p)
             if k:
